@@ -23,7 +23,7 @@ def gen(rng, tier):
             size = 0
             target = (blocks - 1) * B + rng.randrange(30, B - 30)
             while True:
-                m = iu.rand_message(rng, pk, codec, nbits=rng.choice([2, 5, 12]), with_pds=False)
+                m = iu.rand_message_fit(rng, pk, codec, nbits=rng.choice([2, 5, 12]), with_pds=False)
                 try:
                     n = len(iu.ref_wire(m, pk, codec, False)) + 4
                 except (iu.Refused, UnicodeEncodeError):
